@@ -81,8 +81,8 @@ PROPS = {
     },
     "C06": {
         "title": "Over the network SET/GET/DEL answer exactly as the map model, in order",
-        "rules": [k2s.p11_command_application, k2s.p12_handler_loop, k4.v2_parse_frame, k4.v6_write_frame_flushes, k3.s9_command_table, k2.p6b_pool_filled, k2.p3_publish_after_append, k2.p18_handle_delegation, k8.s9b_client_encoders, k8.v7_argument_parsers, k9.s19_value_transparency, k9.s20_client_response_mapping, k9.s18_encoder_sequence, k9.s21_forwarding, k9.b1_server_binary_lifetime, k9.s23_argument_errors_reject, k1.w5_permit_ops],
-        "decides": "one reply per applied command, after the storage call completed, none on error paths, with the prescribed variant and the stored bytes; DEL counts Ok(true); the connection loop is read→parse→apply→reply; Incomplete ⇒ read more; exactly the checked length is consumed on every path and the read buffer is never replaced; every reply is flushed unconditionally; command names matched by full equality; DEL processes every key; arguments: only bulk strings, list ends only when exhausted, GET/SET reject trailing arguments; delete reports presence from under the writer lock; client encoders use the dispatched literals; no partial writes; Ok(None) only on Incomplete; values are carried as the bytes received (Set takes its value from get_bytes, apply passes the command's own key/value, GET replies with the store's bytes); the client writes its request before reading one response and maps replies per command; the encoder emits the RESP sequence per frame kind; the KeyValueStorage impl maps set/get/del to put/get/delete; the server binary keeps the store open while serving; argument errors reject the whole command; a connection slot is released in Handler's Drop on every way a handler ends (errors included), so later connections are still accepted and answered",
+        "rules": [k2s.p11_command_application, k2s.p12_handler_loop, k4.v2_parse_frame, k4.v3_read_frame_eof, k4.v6_write_frame_flushes, k3.s9_command_table, k2.p6b_pool_filled, k2.p3_publish_after_append, k2.p18_handle_delegation, k8.s9b_client_encoders, k8.v7_argument_parsers, k9.s19_value_transparency, k9.s20_client_response_mapping, k9.s18_encoder_sequence, k9.s21_forwarding, k9.b1_server_binary_lifetime, k9.s23_argument_errors_reject, k1.w5_permit_ops],
+        "decides": "one reply per applied command, after the storage call completed, none on error paths, with the prescribed variant and the stored bytes; DEL counts Ok(true); the connection loop is read→parse→apply→reply; Incomplete ⇒ read more; exactly the checked length is consumed on every path and the read buffer is never replaced; every reply is flushed unconditionally; command names matched by full equality; DEL processes every key; arguments: only bulk strings, list ends only when exhausted, GET/SET reject trailing arguments; delete reports presence from under the writer lock; client encoders use the dispatched literals; no partial writes; Ok(None) only on Incomplete; values are carried as the bytes received (Set takes its value from get_bytes, apply passes the command's own key/value, GET replies with the store's bytes); the client writes its request before reading one response and maps replies per command; the encoder emits the RESP sequence per frame kind; the KeyValueStorage impl maps set/get/del to put/get/delete; the server binary keeps the store open while serving; argument errors reject the whole command; a connection slot is released in Handler's Drop on every way a handler ends (errors included), so later connections are still accepted and answered; the socket is read only after the buffered bytes were tried (requests that arrive in one segment are all answered)",
         "not_decided": "byte-for-byte value equality and segmentation independence as observed behaviour",
     },
     "C07": {
@@ -142,8 +142,8 @@ PROPS = {
     },
     "C16": {
         "title": "Graceful shutdown terminates, keeps acknowledged data, and tears no reply",
-        "rules": [k2s.p9_server_shutdown_handshake, k2s.p12_handler_loop, k4.v3_read_frame_eof, k2s.p10_accept_loop, k4.v6_write_frame_flushes, k8.p20_shutdown_helper, k8.p10b_accept_backoff, k9.b1_server_binary_lifetime, k9.p12b_read_error_ends_handler, k9.w8_channels_carry_no_messages],
-        "decides": "run(): notify, drop own completion sender, then wait, on every path; reading is raced with shutdown, applying a command is not; EOF mid-frame is an error path; every handler holds a completion sender and a subscription; replies are flushed; the Shutdown helper means what it says; accept back-off; no SO_LINGER on connections; in the server binary the store outlives `server.run().await` and the server's handle is a handle of that store; a handler never loops back to read_frame on an error (it would never see the shutdown); nothing is ever sent on the completion/notification channels, so the server's final recv() returns only when every handler is gone",
+        "rules": [k2s.p9_server_shutdown_handshake, k2s.p12_handler_loop, k4.v3_read_frame_eof, k2s.p10_accept_loop, k4.v6_write_frame_flushes, k8.p20_shutdown_helper, k8.p10b_accept_backoff, k9.b1_server_binary_lifetime, k9.p12b_read_error_ends_handler, k9.w8_channels_carry_no_messages, k2s.p11_command_application],
+        "decides": "run(): notify, drop own completion sender, then wait, on every path; reading is raced with shutdown, applying a command is not; EOF mid-frame is an error path; every handler holds a completion sender and a subscription; replies are flushed; the Shutdown helper means what it says; accept back-off; no SO_LINGER on connections; in the server binary the store outlives `server.run().await` and the server's handle is a handle of that store; a handler never loops back to read_frame on an error (it would never see the shutdown); nothing is ever sent on the completion/notification channels, so the server's final recv() returns only when every handler is gone; a reply is written only after the storage call succeeded on both result layers (what a client saw acknowledged is in the store)",
         "not_decided": "bounded time; a client that never reads its replies",
     },
     "C17": {
@@ -166,8 +166,8 @@ PROPS = {
     },
     "C20": {
         "title": "A failed disk operation is reported and leaves the store consistent",
-        "rules": [k5.e1_no_dropped_result, controls.control("E1"), k5.e2_merge_errors_abort, k2m.p5_merge_outputs_before_unlink, k2.p13_writer_identity_pair, k2.p3_publish_after_append, k2.p1_append_flushes, k2m.s7_s8_merge_sets, k9.s15_position_tracking, k4.v5_hint_fallback, k1.w1_file_mutation_api, controls.control("W1")],
-        "decides": "no storage Result is dropped; no buffered output is left to Drop's error-swallowing flush before unlink/Ok; active_fileid and writer change together or not at all on every error path; the index is touched only on the Ok edge of the append; flush errors of append are propagated; merge aborts on the first failed disk operation (an error that is only logged does not count); hint after data so that a failed create leaves no orphan hint; the position an append reports is the tracked count of bytes handed to the buffered writer (bytes of a failed flush that are still buffered are counted, they precede the next record); every error of the hint loader other than NotFound ends the open with that error (none is swallowed into an incomplete index); files are created exclusively, so a retried operation can never adopt the leftovers of a failed one",
+        "rules": [k5.e1_no_dropped_result, controls.control("E1"), k5.e2_merge_errors_abort, k2s.p11_command_application, k2m.p5_merge_outputs_before_unlink, k2.p13_writer_identity_pair, k2.p3_publish_after_append, k2.p1_append_flushes, k2m.s7_s8_merge_sets, k9.s15_position_tracking, k4.v5_hint_fallback, k1.w1_file_mutation_api, controls.control("W1")],
+        "decides": "no storage Result is dropped; no buffered output is left to Drop's error-swallowing flush before unlink/Ok; active_fileid and writer change together or not at all on every error path; the index is touched only on the Ok edge of the append; flush errors of append are propagated; merge aborts on the first failed disk operation (an error that is only logged does not count); hint after data so that a failed create leaves no orphan hint; the position an append reports is the tracked count of bytes handed to the buffered writer (bytes of a failed flush that are still buffered are counted, they precede the next record); every error of the hint loader other than NotFound ends the open with that error (none is swallowed into an incomplete index); files are created exclusively, so a retried operation can never adopt the leftovers of a failed one; over the network a failed storage call is never answered with a success reply (P11)",
         "not_decided": "the effect of each errno as behaviour; history-shaped fault defects D11/D12 (DESIGN.md section 6)",
     },
 }
